@@ -75,6 +75,7 @@ func runC03(c *core.Ctx) {
 		probeSeen = strings.Join(ks, ",")
 		return "", nil
 	})
+	pe.RegisterFilter("vpanic", func(v any) any { panic("vpanic: a user filter blew up") })
 	nh := c.Pick(2500, 60000)
 	for h := 0; h < nh; h++ {
 		if !c.Mine(h) {
@@ -189,6 +190,12 @@ func runC03(c *core.Ctx) {
 				continue
 			}
 			core.Render(pt, envs[r.Intn(len(envs))]) // some other render first
+			if k == 1 {
+				// ... and one that dies part-way by a panic out of a user filter, after assigning and capturing
+				if dt, dr := core.ParsePlain(pe, "{% assign leftover_a = 'secret' %}{% capture leftover_c %}cap{% endcapture %}{% for leftover_i in (1..2) %}{{ 1 | vpanic }}{% endfor %}"); dr.OK() {
+					core.Render(dt, envs[r.Intn(len(envs))])
+				}
+			}
 			probeSeen = "(probe not run)"
 			core.Render(pt, envs[bi])
 			c.Eval(2)
